@@ -16,7 +16,7 @@ HOSTILE = [
     ("501numbers", " ".join(["1"] * 501)), ("denormal", "1e-320"), ("tabnl", "\t\n"),
 ]
 HUGE = {"intmax", "300digits", "1e999", "501numbers"}     # may legitimately ask for unbounded resources
-HOSTILE_QUICK = ["empty", "nan", "1e999", "-1", "x", "20numbers", "intmax", "format", "501numbers"]
+HOSTILE_QUICK = ["empty", "nan", "x", "20numbers", "intmax", "format"]
 
 
 def loads(lib, xml, vfs):
@@ -115,8 +115,8 @@ def shipped_small(limit_bytes=2000, nmax=40):
     for f in fs:
         if os.path.getsize(f) <= limit_bytes:
             t = open(f, errors="replace").read()
-            if "<include" in t or "file=" in t:
-                continue
+            if "<include" in t or "file=" in t or "memory=" in t or re.search(r'(width|height|nrow|ncol)="\d{3,}"', t):
+                continue      # no external files; no large arenas / textures (seconds per document under ASan)
             out.append((os.path.relpath(f, build.REPO), t))
     return out[:nmax]
 
@@ -153,10 +153,12 @@ def attr_deviations(doc, path, schema_attrs, hostile, all_nodes=True):
                     yield ("attr-hostile", "%s.%s=%s" % (n.tag, k, hk), hk, d.xml())
 
 
-def elem_deviations(doc, path, rename_tags, reparent=True):
+def elem_deviations(doc, path, rename_tags, reparent=True, only=None):
+    """only=path: rename / re-parent only the target element and its parent (delete/duplicate still at every element)."""
     base = doc
     nodes = [(n, path_of(base, n)) for n in base.nodes()]
     for n, pth in nodes:
+        focus = only is None or pth == list(only) or pth == list(only)[:-1]
         if not pth:
             # root: rename only
             for t in rename_tags:
@@ -174,11 +176,11 @@ def elem_deviations(doc, path, rename_tags, reparent=True):
         par.kids.insert(pth[-1], par.kids[pth[-1]].clone())
         yield ("elem-duplicate", n.tag, None, d.xml())
         for t in rename_tags:
-            if t != n.tag:
+            if t != n.tag and focus:
                 d = base.clone()
                 node_at(d, pth).tag = t
                 yield ("elem-rename", "%s->%s" % (n.tag, t), None, d.xml())
-        if reparent:
+        if reparent and (only is None or pth == list(only)):
             for m, mp in nodes:
                 if m is n or mp[:len(pth)] == pth or mp == pth[:-1]:
                     continue      # not under itself, not its current parent
@@ -337,7 +339,7 @@ def typed_docs(item):
 
 # ------------------------------------------------------------------ sanitizer library for C37
 
-C37_EXTRA = ("-fno-sanitize=nonnull-attribute",)
+C37_EXTRA = ("-fno-sanitize=nonnull-attribute,pointer-overflow",)
 
 
 def ensure_asan_lib():
